@@ -1,6 +1,7 @@
 pub mod alloc;
 pub mod c17;
 pub mod engine;
+pub mod fuzzdec;
 pub mod gen;
 pub mod oracle;
 pub mod props;
@@ -58,38 +59,7 @@ pub fn replay(id: &str, path: &std::path::Path, strict: bool) -> Option<i32> {
 // fuzzing entry (used by /verif/fuzz)
 // ---------------------------------------------------------------------------
 
-fn fuzz_p<P: Prop>(data: &[u8]) -> Option<String> {
-	use std::cell::RefCell;
-	use std::collections::HashSet;
-	thread_local! {
-		static STATE: RefCell<Option<(String, Box<dyn std::any::Any>, HashSet<String>)>> = RefCell::new(None);
-	}
-	engine::install_panic_hook();
-	STATE.with(|st| {
-		let mut st = st.borrow_mut();
-		let fresh = match &*st {
-			Some((id, _, _)) => id != P::ID,
-			None => true,
-		};
-		if fresh {
-			if let Err(e) = oracle::self_check().and_then(|_| P::self_check()) {
-				eprintln!("harness self-check failed: {e}");
-				std::process::exit(2);
-			}
-			let tier = if std::env::var("VERIF_TIER").ok().as_deref() == Some("quick") { Tier::Quick } else { Tier::Thorough };
-			let strategy: proptest::strategy::BoxedStrategy<P::Case> = P::strategy(tier);
-			*st = Some((P::ID.to_string(), Box::new(strategy), engine::known_sigs_for(P::ID)));
-		}
-		let (_, strat, known) = st.as_ref().unwrap();
-		let strategy = strat.downcast_ref::<proptest::strategy::BoxedStrategy<P::Case>>().unwrap();
-		engine::fuzz_one::<P>(strategy, data, known).map(|(case, f)| {
-			eprintln!("fuzz failure: sig={} :: {}", f.sig, f.msg);
-			engine::save_fuzz_failure::<P>(&case, &f).display().to_string()
-		})
-	})
-}
-
 /// Judges one fuzzer input for property `id`; returns the replay path of a failure.
 pub fn fuzz_one(id: &str, data: &[u8]) -> Option<String> {
-	dispatch!(id, fuzz_p, data).flatten()
+	fuzzdec::run(id, data)
 }
